@@ -53,6 +53,14 @@ type c05Scenario struct {
 
 func c05Gen(t *rapid.T) c05Scenario {
 	s := c05Scenario{Cfg: vsGenCfg(t)}
+	if rapid.IntRange(0, 4).Draw(t, "enionly") == 0 {
+		// exclusive-ENI node: one address per interface, no trunk
+		s.Cfg.ENIOnly, s.Cfg.Cap, s.Cfg.Batch, s.Cfg.Trunk = true, 1, 1, false
+		for i := range s.Cfg.PreENIs {
+			s.Cfg.PreENIs[i] = 1
+		}
+		s.Cfg.Slots += rapid.IntRange(0, 2).Draw(t, "moreslots")
+	}
 	n := rapid.IntRange(1, vt.Scale(10, 24)).Draw(t, "nops")
 	for i := 0; i < n; i++ {
 		s.Ops = append(s.Ops, c05Op{
@@ -72,7 +80,7 @@ func c05Gen(t *rapid.T) c05Scenario {
 	if rapid.IntRange(0, 4).Draw(t, "shrink") == 0 {
 		s.ShrinkCap = rapid.IntRange(1, 3).Draw(t, "shrinkcap")
 	}
-	if !s.Cfg.V6 && rapid.IntRange(0, 3).Draw(t, "legacy") == 0 {
+	if !s.Cfg.V6 && !s.Cfg.ENIOnly && rapid.IntRange(0, 3).Draw(t, "legacy") == 0 {
 		s.LegacyMask = rapid.IntRange(1, 1<<c04Pods-1).Draw(t, "legacymask")
 	}
 	return s
